@@ -1,4 +1,5 @@
 import DclabModel.Model.Anc
+import DclabModel.Model.AncRank
 import DclabModel.Gen.AncTable
 import DclabModel.DriveUtil
 /-! Line-protocol driver for the ancillary-feature model (C06).
@@ -25,19 +26,32 @@ import DclabModel.DriveUtil
                       cover = what the selected recipe's hash reads
     in <feat>       → `0|1`
     feats           → available feature names, comma separated
-    decl <idx>      → `readsF=<feats> readsC=<keys> outs=<names>` of the recipe with that index
+    decl <idx>      → `readsF=<feats> readsC=<keys> outs=<names> src=<ast|table>` of the recipe
+                      with that index (`ast`: read set extracted from the method's source)
+    fuel <feat>     → `fuel=<k> bound=<B> ranked=<0|1> stable=<0|1>`: k = `featFuel` (recursion
+                      depth after which nothing about <feat> changes), B = `fuelBound` for the
+                      whole registry incl. plug-ins (ranks by `computeRanks`), ranked = `rankedB`,
+                      stable = availability and selection at fuel k equal those at the driver's fuel
+    ranks           → `name:priority:rank,…` computed by `computeRanks` for the current registry
+    gap <feat>      → `gap=<0|1> avail=<0|1>`: the decidable availability-gap predicate `gapS`
+                      (F07 / F63 classes) and availability in the current state
 -/
 open DclabModel.Anc DclabModel.DriveUtil DclabModel.Gen.AncTable
 
-def fuel : Nat := 8
+/-- recursion depth used for all answers: above the rank bound of the core registry (plus room
+for plug-in chains on top of it), so by `fuel_sufficient` the answers are the fixpoint values;
+`fuel <feat>` re-checks this for the actual registry (`stable=`) -/
+def fuel : Nat := max 8 (fuelBound rankTable + 2)
 
 structure DS where
   innate  : List (Feat × String) := []
   plugins : List Spec := []
   st      : St String String := { temp := [], cfg := [] }
   cache   : Cache String String := []
+  /-- memo of `computeRanks` per plug-in list (survives `reset`) -/
+  rankMemo : List (List Spec × RankTable) := []
 
-def DS.specs (d : DS) : List Spec := table.map specOf ++ d.plugins
+def DS.specs (d : DS) : List Spec := table.map (specOfA astReads) ++ d.plugins
 def DS.env (d : DS) : Env String String := envOf d.specs d.innate
 
 def unkey (s : String) : String := s.replace "~" " "
@@ -62,9 +76,29 @@ def parseHints (s : String) : List (Feat × String) :=
 def selSpec (d : DS) (f : Feat) : Option Spec :=
   (d.specs.filter (fun p => p.name == f && recAvail d.env fuel d.st p.toRecipe)).getLast?
 
+def DS.withRanks (d : DS) : DS × RankTable :=
+  match d.rankMemo.find? (fun m => m.1 == d.plugins) with
+  | some m => (d, m.2)
+  | none => let t := computeRanks d.specs; ({ d with rankMemo := (d.plugins, t) :: d.rankMemo }, t)
+
 def handle (d : DS) (line : String) : DS × String :=
   match words line with
-  | ["reset"] => ({}, "ok")
+  | ["fuel", f] =>
+    let (d, t) := d.withRanks
+    let k := featFuelS d.specs t f
+    let selAt := fun (n : Nat) =>
+      ((d.specs.filter (fun p => p.name == f && recAvail d.env n d.st p.toRecipe)).getLast?).map (·.idx)
+    let stable := avail d.env k d.st f == avail d.env fuel d.st f && selAt k == selAt fuel
+    (d, "fuel=" ++ toString k ++ " bound=" ++ toString (fuelBound t)
+          ++ " ranked=" ++ (if rankedB d.specs t then "1" else "0")
+          ++ " stable=" ++ (if stable then "1" else "0"))
+  | ["ranks"] =>
+    let (d, t) := d.withRanks
+    (d, showL (t.map (fun x => x.1 ++ ":" ++ toString x.2.1 ++ ":" ++ toString x.2.2)))
+  | ["gap", f] =>
+    (d, "gap=" ++ (if gapS d.env d.st f then "1" else "0")
+          ++ " avail=" ++ (if avail d.env fuel d.st f then "1" else "0"))
+  | ["reset"] => ({ rankMemo := d.rankMemo }, "ok")
   | "innate" :: kvs =>
     let ps := kvs.filterMap (fun kv => match kv.splitOn "=" with
       | [k, v] => some (k, v) | _ => none)
@@ -87,7 +121,9 @@ def handle (d : DS) (line : String) : DS × String :=
   | ["decl", i] =>
     match i.toNat?.bind (fun i => d.specs[i]?) with
     | some p => (d, "readsF=" ++ showL p.readsF ++ " readsC=" ++ showL (p.readsC.map enkey)
-                      ++ " outs=" ++ showL p.outs)
+                      ++ " outs=" ++ showL p.outs ++ " src="
+                      ++ (if (table[i.toNat?.getD 0]?.bind (fun w => astLookup astReads w.method)).isSome
+                          then "ast" else "table"))
     | none => (d, "bad-op")
   | ["in", f] => (d, if avail d.env fuel d.st f then "1" else "0")
   | ["feats"] => (d, showL ((cands d.env d.st).filter (avail d.env fuel d.st)))
